@@ -196,7 +196,7 @@ def parent_main(prop, tier, seed, replay=None):
     t0 = time.monotonic()
     mod = load_check(prop)
     prop = mod.ID
-    evdir = os.path.join(boot.VERIF, 'evidence')
+    evdir = os.environ.get('VERIF_EVIDENCE_DIR') or os.path.join(boot.VERIF, 'evidence')
     os.makedirs(os.path.join(evdir, 'replay'), exist_ok=True)
     if replay:
         return replay_main(mod, replay)
@@ -242,7 +242,7 @@ def parent_main(prop, tier, seed, replay=None):
 
 def finish(mod, tier, seed, results, problems, wall):
     prop = mod.ID
-    evdir = os.path.join(boot.VERIF, 'evidence')
+    evdir = os.environ.get('VERIF_EVIDENCE_DIR') or os.path.join(boot.VERIF, 'evidence')
     sigs, hits, logged = set(), collections.Counter(), collections.Counter()
     vcounts = collections.Counter()
     evaluations = overflow = 0
